@@ -9,12 +9,16 @@
 (*                                                                         *)
 (* FLAGFIRST = TRUE sets the flag before sending (a plausible refactoring) *)
 (* and fails FollowsLastSuccess -- the negative control of this model.     *)
+(* SKIPREDUNDANT = TRUE sends the command of a redundant call (sleep while *)
+(* the flag says asleep, wake while awake) but skips its delay: the next   *)
+(* opposite command then follows too closely (seeded change C13-r4m1).     *)
 (***************************************************************************)
 EXTENDS Integers, Sequences, TLC
 
-CONSTANTS MAXCALLS, FAULTS, FLAGFIRST, DELAYMS
+CONSTANTS MAXCALLS, FAULTS, FLAGFIRST, DELAYMS, SKIPREDUNDANT
 
-VARIABLES flag,      \* Display::sleeping
+VARIABLES redundant, \* the call in progress found the flag already in the state it asks for
+          flag,      \* Display::sleeping
           ctlSleep,  \* controller state (TRUE after reset; init wakes it)
           clk,       \* ms
           tslp,      \* time of the last 10h/11h that reached the controller (-1: none / not comparable)
@@ -24,35 +28,38 @@ VARIABLES flag,      \* Display::sleeping
           unknown,   \* a sleep/wake failed after its command may have gone out
           tooClose,  \* two sleep commands less than 120 ms apart on a failure-free stretch
           early      \* a call returned Ok less than 120 ms after its command
-vars == <<flag, ctlSleep, clk, tslp, st, kind, n, budget, lastOk, unknown, tooClose, early>>
+vars == <<redundant, flag, ctlSleep, clk, tslp, st, kind, n, budget, lastOk, unknown, tooClose, early>>
 
-Init == /\ flag = FALSE /\ ctlSleep = FALSE /\ clk = 0 /\ tslp = -1000 /\ st = "idle" /\ kind = "none"
+Init == /\ redundant = FALSE /\ flag = FALSE /\ ctlSleep = FALSE /\ clk = 0 /\ tslp = -1000 /\ st = "idle" /\ kind = "none"
         /\ n = 0 /\ budget = FAULTS /\ lastOk = "init" /\ unknown = FALSE /\ tooClose = FALSE /\ early = FALSE
 
 Target == kind = "sleep"
 Begin(k) == /\ st = "idle" /\ n < MAXCALLS /\ kind' = k /\ n' = n + 1
-            /\ st' = "send"
+            /\ st' = "send" /\ redundant' = (flag = (k = "sleep"))
             /\ flag' = IF FLAGFIRST THEN (k = "sleep") ELSE flag
             /\ UNCHANGED <<ctlSleep, clk, tslp, budget, lastOk, unknown, tooClose, early>>
 Send == /\ st = "send"
         /\ \/ \* the command reaches the controller and the transport reports success
-              /\ ctlSleep' = Target /\ tslp' = clk /\ st' = "delay"
+              /\ ctlSleep' = Target /\ tslp' = clk
               /\ tooClose' = (tooClose \/ (~unknown /\ clk - tslp < 120))
-              /\ UNCHANGED <<flag, clk, kind, n, budget, lastOk, unknown, early>>
+              /\ IF SKIPREDUNDANT /\ redundant
+                 THEN st' = "idle" /\ lastOk' = kind /\ early' = (early \/ clk - clk < 120)   \* returns Ok at the time of the command
+                 ELSE st' = "delay" /\ UNCHANGED <<lastOk, early>>
+              /\ UNCHANGED <<redundant, flag, clk, kind, n, budget, unknown>>
            \/ \* failure before the command byte went out
               /\ budget > 0 /\ budget' = budget - 1 /\ st' = "idle"
-              /\ UNCHANGED <<flag, ctlSleep, clk, tslp, kind, n, lastOk, unknown, tooClose, early>>
+              /\ UNCHANGED <<redundant, flag, ctlSleep, clk, tslp, kind, n, lastOk, unknown, tooClose, early>>
            \/ \* failure after the command byte went out (D/C back high, empty parameter write)
               /\ budget > 0 /\ budget' = budget - 1 /\ st' = "idle" /\ ctlSleep' = Target /\ unknown' = TRUE /\ tslp' = clk
-              /\ UNCHANGED <<flag, clk, kind, n, lastOk, tooClose, early>>
+              /\ UNCHANGED <<redundant, flag, clk, kind, n, lastOk, tooClose, early>>
 Delay == /\ st = "delay" /\ clk' = clk + DELAYMS /\ st' = "flag"
-         /\ UNCHANGED <<flag, ctlSleep, tslp, kind, n, budget, lastOk, unknown, tooClose, early>>
+         /\ UNCHANGED <<redundant, flag, ctlSleep, tslp, kind, n, budget, lastOk, unknown, tooClose, early>>
 SetFlag == /\ st = "flag" /\ flag' = Target /\ lastOk' = kind /\ st' = "idle" /\ unknown' = FALSE
            /\ early' = (early \/ clk - tslp < 120)
-           /\ UNCHANGED <<ctlSleep, clk, tslp, kind, n, budget, tooClose>>
+           /\ UNCHANGED <<redundant, ctlSleep, clk, tslp, kind, n, budget, tooClose>>
 \* drawing, set_orientation, scrolling: no effect on any of this, and no time passes
 Other == /\ st = "idle" /\ n < MAXCALLS /\ n' = n + 1
-         /\ UNCHANGED <<flag, ctlSleep, clk, tslp, st, kind, budget, lastOk, unknown, tooClose, early>>
+         /\ UNCHANGED <<redundant, flag, ctlSleep, clk, tslp, st, kind, budget, lastOk, unknown, tooClose, early>>
 
 Next == Begin("sleep") \/ Begin("wake") \/ Send \/ Delay \/ SetFlag \/ Other
 Spec == Init /\ [][Next]_vars
